@@ -316,6 +316,42 @@ pub fn family_a_ipfix(max_body: usize) -> Arc<dyn Family> {
     })
 }
 
+/// Family A2: every ordered PAIR of menu templates delivered in two earlier calls (the second redefines the id, possibly
+/// as the other kind), then data for the id: body length 0..=max_body x 4 fills
+pub fn family_a2(ipfix: bool, max_body: usize) -> Arc<dyn Family> {
+    let menu = if ipfix { ipfix_template_menu() } else { v9_template_menu() };
+    let nt = menu.len() as u64;
+    let radices = [nt, nt, max_body as u64 + 1, FILLS];
+    family(&format!("A2-{}-template-pairs(body<={})", if ipfix { "ipfix" } else { "v9" }, max_body), product(&radices), move |i| {
+        let d = digits(i, &radices);
+        let pkt = |k: usize| -> Vec<u8> {
+            let (_, tid, tbody) = &menu[k];
+            let tset = raw_set(*tid, (tbody.len() + 4) as u16, tbody);
+            if ipfix {
+                let mut m = ipfix_hdr((16 + tset.len()) as u16);
+                m.extend(&tset);
+                m
+            } else {
+                let mut p = v9_hdr(1);
+                p.extend(&tset);
+                p
+            }
+        };
+        let body = body_fill(d[3], d[2] as usize, (d[0] * 31 + d[1]) as usize);
+        let dset = raw_set(256, (body.len() + 4) as u16, &body);
+        let input = if ipfix {
+            let mut m = ipfix_hdr((16 + dset.len()) as u16);
+            m.extend(&dset);
+            m
+        } else {
+            let mut p = v9_hdr(1);
+            p.extend(&dset);
+            p
+        };
+        Case { prior: vec![pkt(d[0] as usize), pkt(d[1] as usize)], input }
+    })
+}
+
 /// Family E: every field type number 0..=520 (+600, 32767) x declared lengths incl. unsupported ones x short bodies,
 /// template and data in one packet and (odd indices) template in an earlier call
 pub fn family_e(ipfix: bool) -> Arc<dyn Family> {
